@@ -196,6 +196,15 @@ func evalDoc(c *rt.Case) (bool, string, string, error) {
 		return false, "", "", fmt.Errorf("not mine")
 	}
 	os := optSet{c.Cfg, optByName(c.Cfg)}
+	if strings.HasPrefix(c.Doc, "overflow#") {
+		var i int
+		fmt.Sscanf(c.Doc, "overflow#%d", &i)
+		if docs := overflowDocs(); i >= 0 && i < len(docs) {
+			cc := *c
+			cc.Doc = docs[i]
+			c = &cc
+		}
+	}
 	if strings.HasPrefix(c.Doc, "large#") {
 		var i, v int
 		fmt.Sscanf(c.Doc, "large#%d/variant%d", &i, &v)
